@@ -338,6 +338,18 @@ impl KeyKeeperSharedState {
         }
     }
 
+    /// Get the guid and the value of the current key with a single read,
+    /// so that both always belong to the same key even if the key is being rotated.
+    /// # Returns
+    /// * `(Option<String>, Option<String>)` - (key guid, key value), both `None` if no key is latched
+    pub async fn get_current_key_guid_and_value(&self) -> Result<(Option<String>, Option<String>)> {
+        match self.get_key().await {
+            Ok(Some(k)) => Ok((Some(k.guid), Some(k.key))),
+            Ok(None) => Ok((None, None)),
+            Err(e) => Err(e),
+        }
+    }
+
     pub async fn get_current_key_incarnation(&self) -> Result<Option<u32>> {
         match self.get_key().await {
             Ok(Some(k)) => Ok(k.incarnationId),
